@@ -35,6 +35,20 @@ func genIterator(m map[int]int, strides []int, idx int) (int, bool) {
 	return f, ok
 }
 
+// hasShape returns true when ap has exactly the given shape, axis by axis, and one stride per axis
+// (a scalar-equivalent shape may come without strides). Such an operand is not broadcast.
+func hasShape(ap *AP, shape Shape) bool {
+	if len(ap.shape) != len(shape) {
+		return false
+	}
+	for i := range shape {
+		if ap.shape[i] != shape[i] {
+			return false
+		}
+	}
+	return len(ap.strides) == len(shape) || ap.shape.IsScalarEquiv()
+}
+
 // NewMultIterator creates a new MultIterator from a list of APs
 func NewMultIterator(aps ...*AP) *MultIterator {
 	nit := len(aps)
@@ -71,6 +85,9 @@ func NewMultIterator(aps ...*AP) *MultIterator {
 	it.shape = shape
 
 	for _, ap := range aps {
+		if hasShape(ap, shape) {
+			continue
+		}
 		_, err := BroadcastStrides(shape, ap.shape, it.strides[:maxDims], ap.strides)
 		if err != nil {
 			panic("can not broadcast strides")
@@ -92,9 +109,14 @@ func NewMultIterator(aps ...*AP) *MultIterator {
 		f, ok := genIterator(m, ap.strides, nBlocks)
 		if !ok {
 			offset = nBlocks * maxDims
-			apStrides, _ := BroadcastStrides(shape, ap.shape, it.strides[offset:offset+maxDims], ap.strides)
-			copy(it.strides[offset:offset+maxDims], apStrides)
-			ReturnInts(apStrides) // Borrowed in BroadcastStrides but returned here - dangerous pattern?
+			if hasShape(ap, shape) {
+				// an operand of the iterator's own shape is walked with its own strides
+				copy(it.strides[offset:offset+maxDims], ap.strides)
+			} else {
+				apStrides, _ := BroadcastStrides(shape, ap.shape, it.strides[offset:offset+maxDims], ap.strides)
+				copy(it.strides[offset:offset+maxDims], apStrides)
+				ReturnInts(apStrides) // Borrowed in BroadcastStrides but returned here - dangerous pattern?
+			}
 			nBlocks++
 		}
 		ap2 := MakeAP(it.shape[:maxDims], it.strides[offset:offset+maxDims], ap.o, ap.Δ)
